@@ -50,6 +50,7 @@ impl AsyncCoreExt {
     pub(crate) fn new() -> AsyncCoreExt {
         #[allow(unused_mut)]
         let mut builder = Builder::new_current_thread();
+        builder.event_interval(u32::MAX);
 
         #[cfg(feature = "unstable-tokio-enable-time")]
         builder.enable_time();
@@ -67,6 +68,7 @@ impl AsyncCoreExt {
         self.rt = Rt::Runtime((
             Arc::new(
                 Builder::new_current_thread()
+                    .event_interval(u32::MAX)
                     .rng_seed(RngSeed::from_bytes(&random::<u64>().to_le_bytes()))
                     .build()
                     .expect("Failed to build tokio runtime"),
